@@ -76,9 +76,21 @@ def run(ctx):
     if not ctx.violations and (n["FZ"] < 5000 or n["SH"] < 5000 or len(schemas) < 15 or len(fams) < 6):
         raise Inconclusive("TLC printed too few cases %s (%d schemas, %d families): vacuous" % (n, len(schemas), len(fams)))
 
+    # ---- the surface of an RPC client (spec/RpcFuzz.tla): one state per (transport, envelope, method, params shape, field)
+    rr = ctx.tlc("RpcFuzz", "RpcFuzz", workers=4, timeout=300)
+    if rr["violation"]:
+        raise Inconclusive("RpcFuzz.tla fails at spec level: %s" % rr["outpath"])
+    rpc_cases = ctx.path("rpc_cases.ndjson")
+    n_rpc = 0
+    with open(rpc_cases, "w") as fh:
+        for d in ctx.dumps(rr["out"], "RP"):
+            fh.write(json.dumps(d, separators=(",", ":")) + "\n"); n_rpc += 1
+    if n_rpc < 1000:
+        raise Inconclusive("RpcFuzz.tla printed %d cases only" % n_rpc)
+
     # ---- the real code
     of = ctx.path("c09_out.json")
-    p = ctx.run([binp, "run", cases, of], timeout=2400, env={"C09_GENESIS_TS": gts})
+    p = ctx.run([binp, "run", cases, of], timeout=2400, env={"C09_GENESIS_TS": gts, "C09_RPC_CASES": rpc_cases})
     if p.returncode != 0:
         raise Inconclusive("c09 harness failed (rc=%d): %s" % (p.returncode, (p.stderr or p.stdout)[-2000:]))
     res = load(of, "run", p)
@@ -91,6 +103,8 @@ def run(ctx):
         raise Inconclusive("the nominal argument shapes are not accepted by the verifiers: the shape model does not bind")
     for v in res.get("violations") or []:
         ctx.violation(v["key"], v["what"] + " (%d inputs with this key)" % res["violation_counts"].get(v["key"], 1), v["replay"])
+    if not ctx.violations and info.get("rpc_cases_run", 0) < n_rpc * 0.9:
+        raise Inconclusive("only %s of %d RPC cases were run" % (info.get("rpc_cases_run"), n_rpc))
     bs = info.get("block_sequences") or {}
     if not ctx.violations and bs.get("applied", 0) + bs.get("second-rejected", 0) < 5:
         raise Inconclusive("block sequences never reach the second block of the same generator: %s" % bs)
@@ -142,7 +156,7 @@ def run(ctx):
                schemas_from_real_node=sorted(schemas), shape_families=sorted(fams), registry_types=ntypes,
                verdicts={k: v for k, v in res["verdicts"].items() if not k.startswith(("decode:", "strict:"))},
                spec_vs_strict_decoder=dict(agree=info["spec_vs_strict_decoder_agree"], disagree=info["spec_vs_strict_decoder_disagree"]),
-               malformed_shapes_accepted=info["malformed_shapes_accepted_by"], odd_blocks=info["odd_blocks"], block_sequences=info.get("block_sequences"), mutants=info["mutants"],
+               malformed_shapes_accepted=info["malformed_shapes_accepted_by"], odd_blocks=info["odd_blocks"], block_sequences=info.get("block_sequences"), rpc_cases=n_rpc, rpc_cases_run=info.get("rpc_cases_run"), rpc_outcomes=info.get("rpc_outcomes"), mutants=info["mutants"],
                entry_points_disabled_after_findings=res.get("disabled"), violation_input_counts=res["violation_counts"],
                phase_seconds=info["phase_seconds"], exhaustive_alloc_per_call=info["exhaustive_alloc_per_call"])
     finish(ctx, LEVEL, cov, assumptions=[
